@@ -223,7 +223,8 @@ class RefMDP:
             best = Q[s][self.avail[s]].max()
             # (normwise: a linear solve is accurate relative to the largest value in the system)
             vmax_ = float(np.max(np.abs(V[np.isfinite(V)]))) if np.isfinite(V).any() else 0.0
-            if not (best == V[s] or abs(best - V[s]) <= 1e-7 * (1 + abs(V[s])) + 1e-12 * vmax_):
+            floor_ = vmax_ + (self.rmax_abs() / (1 - gamma) if gamma < 1 else self.rmax_abs() * n)
+            if not (best == V[s] or abs(best - V[s]) <= 1e-7 * (1 + abs(V[s])) + 1e-12 * floor_):
                 raise AssertionError(f"reference optimal value not a Bellman fixed point at {s}: {best} vs {V[s]}")
         return {"V": V, "Q": Q, "n_policies": K, "policies": pols, "Vs": Vs}
 
